@@ -230,6 +230,18 @@ func redactCommand(cmd *orderedmap.OrderedMap[string, any], shouldEagerRedact bo
 			cmd.Set("u", redactUpdatePipeline(updatePipeline, shouldEagerRedact))
 		}
 	}
+	// The rest of an update specification when it is spelled at command level (findAndModify, and the
+	// WRITE log line of a single update statement: {q, u, c, arrayFilters, multi, upsert}).
+	if arrayFilters, ok := cmd.Get("arrayFilters"); ok {
+		if filtersArr, ok := arrayFilters.([]any); ok {
+			cmd.Set("arrayFilters", redactArrayValues(filtersArr, shouldEagerRedact, false, false, []string{}))
+		}
+	}
+	if constants, ok := cmd.Get("c"); ok {
+		if constantsMap, ok := constants.(*orderedmap.OrderedMap[string, any]); ok {
+			cmd.Set("c", redactQueryValues(constantsMap, shouldEagerRedact, false, nil, []string{}))
+		}
+	}
 	if _, isInsert := cmd.Get("insert"); isInsert {
 		if docs, ok := cmd.Get("documents"); ok {
 			if docsArr, ok := docs.([]any); ok {
